@@ -20,7 +20,7 @@ LABELS_NUM = ["1", "2", "3", "5", "10", "12", "20", "100"]
 ANNOTATOR_NAMES = ["alex", "bob", "carl", "dora", "eve"]
 
 FAMILIES = ["grid", "dyadic", "generic", "nested", "identical", "longoverlap", "touching", "negative",
-            "offset", "tiny", "mixeddur"]
+            "offset", "tiny", "mixeddur", "dense"]
 
 
 # --------------------------------------------------------------------------- continua
@@ -65,6 +65,11 @@ def gen_segments(rng, family, k, horizon=None):
         for _ in range(k):
             s = base + rng.randrange(0, 8 * T) / 8.0
             segs.append((s, s + rng.randint(1, 40) / 8.0))
+    elif family == "dense":
+        # many overlapping units in a short span: the integer programme is not solved at the root node
+        for _ in range(k):
+            s = f32(rng.uniform(0, 10))
+            segs.append((s, f32(s + rng.uniform(0.6, 5.6))))
     elif family == "mixeddur":
         # short and long units starting close to each other: relative (length-normalised) distances are not
         # monotone in the start time
